@@ -81,6 +81,9 @@ pub fn uniform_key_pool(rng: &mut Rng, n: usize, allow_long: bool) -> Vec<Vec<u8
 pub enum Fill {
 	Random,
 	Compressible,
+	/// random head + repetitive tail: compression pays off but the result stays large (a
+	/// compressed value that still needs a multipart chain)
+	Semi,
 }
 
 pub fn make_value(rng: &mut Rng, len: usize, fill: Fill) -> Vec<u8> {
@@ -97,6 +100,16 @@ pub fn make_value(rng: &mut Rng, len: usize, fill: Fill) -> Vec<u8> {
 			if len >= 8 {
 				let tag = rng.next().to_le_bytes();
 				v[..8].copy_from_slice(&tag);
+			}
+			v
+		},
+		Fill::Semi => {
+			let head = len * 55 / 100;
+			let mut v = rng.bytes(head);
+			let pat = rng.bytes_in(1, 7);
+			while v.len() < len {
+				let n = (len - v.len()).min(pat.len());
+				v.extend_from_slice(&pat[..n]);
 			}
 			v
 		},
@@ -118,13 +131,19 @@ pub fn value_len(rng: &mut Rng, big: bool) -> usize {
 		14 | 15 => rng.range(600, 5000) as usize,
 		16 if big => rng.range(5_000, 40_000) as usize,
 		17 if big => rng.range(32_000, 34_000) as usize,
+		18 if big => rng.range(60_000, 130_000) as usize,
 		_ => rng.range(0, 120) as usize,
 	}
 }
 
 pub fn random_value(rng: &mut Rng, big: bool) -> Vec<u8> {
 	let len = value_len(rng, big);
-	let fill = if rng.chance(1, 2) { Fill::Compressible } else { Fill::Random };
+	let fill = match rng.below(4) {
+		0 | 1 => Fill::Compressible,
+		2 => Fill::Random,
+		_ if len >= 4096 => Fill::Semi,
+		_ => Fill::Random,
+	};
 	make_value(rng, len, fill)
 }
 
